@@ -707,7 +707,7 @@ func init() {
 	oracles["parser.defperm"] = oracleDefPermutations
 	rule := "programs from the tree grammar with include files (plain lists, lists with comments/blank lines/indentation, files with prefixes and/or suffixes, own definitions, nested includes, include vs exclude directory, with/without .ra), include-except with 1-2 exclusion files, suffix replacement lists incl. chained pairs, definitions; " +
 		"compared with the same program inlined/expanded by an independent naive reading in the harness; non-trivial = at least one include or definition; distinct by bytes"
-	properties["C05"] = &Property{ID: "C05", LeanMods: []string{"CrsProps.C05"}, Corr: "K2 (parser.Parse buffer/flags/prefixes/suffixes/variables), K5", Rule: rule, Gen: genParserCases("include"), Escalate: escalateParser}
+	properties["C05"] = &Property{ID: "C05", LeanMods: []string{"CrsProps.C05", "CrsProps.C05Gen"}, Corr: "K2 (parser.Parse buffer/flags/prefixes/suffixes/variables), K5", Rule: rule, Gen: genParserCases("include"), Escalate: escalateParser}
 	oracles["c06.emptied"] = oracleEmptiedEntry
 	properties["C06"] = &Property{ID: "C06", LeanMods: []string{"CrsProps.C06"}, Corr: "K2 (parser.Parse; replaceSuffixes/buildPairMap alone), K5", Rule: rule, Gen: genParserCases("except"), Escalate: escalateParser}
 	properties["C07"] = &Property{ID: "C07", LeanMods: []string{"CrsProps.C07"}, Corr: "K2 (parser.Parse; expandDefinitions alone, Go's own random map order varies across calls), K5", Rule: rule + "; definition lines permuted (all permutations up to 4 definitions, sampled beyond)", Gen: genParserCases("defs"), Escalate: escalateParser,
